@@ -248,7 +248,8 @@ pub static OPS: &[Op] = &[
         let e = Epoch::from_duration(a[0].dur(), a[1].ts());
         let r = e.to_time_scale(a[2].ts());
         let exp = a[0].total() + scale_zero(a[1].ts()).unwrap() - scale_zero(a[2].ts()).unwrap();
-        (format!("{} {:?}", show_d(r.duration), r.time_scale), format!("{} {:?}", show_total(exp), a[2].ts()))
+        // the secondary entry point to_duration_in_time_scale must give the same count (seed C05-I)
+        (format!("{} {:?} {}", show_d(r.duration), r.time_scale, show_d(e.to_duration_in_time_scale(a[2].ts()))), format!("{} {:?} {}", show_total(exp), a[2].ts(), show_total(exp)))
     }},
     Op { name: "to_duration_accessors", sig: &[Ty::Dur, Ty::UTs], pre: |a| SCALES[..6].iter().all(|t| conv_ok(a[0].total(), a[1].ts(), *t)), f: |a| {
         let e = Epoch::from_duration(a[0].dur(), a[1].ts());
@@ -368,7 +369,9 @@ pub static OPS: &[Op] = &[
     // ---------------------------------------------------------------- C20 GNSS counters
     Op { name: "from_time_of_week", sig: &[Ty::U32, Ty::U64, Ty::Ts], pre: always, f: |a| {
         let r = Epoch::from_time_of_week(a[0].int() as u32, a[1].int() as u64, a[2].ts());
-        (format!("{} {:?}", show_d(r.duration), r.time_scale), format!("{} {:?}", show_total(clamp(a[0].int() * 7 * DAY_NS + a[1].int())), a[2].ts()))
+        let u = Epoch::from_time_of_week_utc(a[0].int() as u32, a[1].int() as u64);
+        let exp = show_total(clamp(a[0].int() * 7 * DAY_NS + a[1].int()));
+        (format!("{} {:?} {} {:?}", show_d(r.duration), r.time_scale, show_d(u.duration), u.time_scale), format!("{} {:?} {} UTC", exp, a[2].ts(), exp))
     }},
     Op { name: "to_time_of_week", sig: &[Ty::Dur, Ty::Ts], pre: |a| a[0].total() >= 0, f: |a| {
         let (w, n) = Epoch::from_duration(a[0].dur(), a[1].ts()).to_time_of_week();
@@ -475,16 +478,97 @@ pub static OPS: &[Op] = &[
         }
         (if bad.is_empty() { "ok".to_string() } else { bad.join("; ") }, "ok".to_string())
     }},
-    Op { name: "gregorian_leap_second", sig: &[Ty::U8, Ty::U8, Ty::Bool, Ty::Ts], pre: always, f: |a| {
-        // second = 60 at 23:59 on the LAST day of any month (or, when the flag is false, on the day before it) of
-        // 1960 + (n mod 70): accepted exactly on the IERS leap-second days
+    Op { name: "gregorian_leap_second", sig: &[Ty::U8, Ty::U8, Ty::Bool, Ty::Ts, Ty::U8], pre: always, f: |a| {
+        // second = 60 on the LAST day of any month (or, when the flag is false, on the day before it) of 1960 + (n mod 70):
+        // accepted exactly at 23:59 with a valid nanosecond field on the IERS leap-second days.  The last argument varies
+        // the other fields (seeds C08-C, C08-H: the second = 60 path must not skip the remaining range checks)
         let y = 1960 + (a[0].int() % 70);
         let mo = 1 + (a[1].int() % 12);
         let d = if a[2].boolean() { month_len(y, mo) } else { month_len(y, mo) - 1 };
-        let r = Epoch::maybe_from_gregorian(y as i32, mo as u8, d as u8, 23, 59, 60, 0, a[3].ts());
-        let verdict = if strict_valid(y, mo, d, 23, 59, 60, 0) && r.is_err() { format!("leap second {}-{}-{}T23:59:60 rejected", y, mo, d) }
-            else if must_reject(y, mo, d, 23, 59, 60, 0) && r.is_ok() { format!("{}-{}-{}T23:59:60 accepted although no leap second was inserted", y, mo, d) } else { "ok".to_string() };
+        let v = a[4].int();
+        let ns: i128 = [0, 0, 0, 999_999_999, 1_000_000_000, 3_000_000_000][(v % 6) as usize];
+        let h: i128 = [23, 23, 23, 22, 0][((v / 6) % 5) as usize];
+        let mi: i128 = [59, 59, 59, 58, 0][((v / 30) % 5) as usize];
+        let r = Epoch::maybe_from_gregorian(y as i32, mo as u8, d as u8, h as u8, mi as u8, 60, ns as u32, a[3].ts());
+        let verdict = if strict_valid(y, mo, d, h, mi, 60, ns) && r.is_err() { format!("leap second {}-{}-{}T{}:{}:60 +{} ns rejected", y, mo, d, h, mi, ns) }
+            else if must_reject(y, mo, d, h, mi, 60, ns) && r.is_ok() { format!("{}-{}-{}T{}:{}:60 +{} ns accepted although the statement demands rejection", y, mo, d, h, mi, ns) } else { "ok".to_string() };
         (verdict, "ok".to_string())
+    }},
+    // ---------------------------------------------------------------- C09 Epoch -> Gregorian fields
+    Op { name: "gregorian_roundtrip", sig: &[Ty::I32, Ty::U8, Ty::U8, Ty::U8, Ty::U8, Ty::U8, Ty::U32, Ty::Ts], pre: |a| {
+        a[0].int().abs() <= 30_000 && strict_valid(a[0].int(), a[1].int(), a[2].int(), a[3].int(), a[4].int(), a[5].int(), a[6].int()) && a[5].int() < 60
+    }, f: |a| {
+        let (y, mo, d, h, mi, s, ns) = (a[0].int(), a[1].int(), a[2].int(), a[3].int(), a[4].int(), a[5].int(), a[6].int());
+        let e = Epoch::maybe_from_gregorian(y as i32, mo as u8, d as u8, h as u8, mi as u8, s as u8, ns as u32, a[7].ts()).unwrap();
+        let got = gregorian_fields(e);
+        (format!("{:?}", got), format!("{:?}", (y as i32, mo as u8, d as u8, h as u8, mi as u8, s as u8, ns as u32)))
+    }},
+    Op { name: "gregorian_fields_of_instant", sig: &[Ty::Dur, Ty::Ts], pre: |a| a[0].total().abs() < 95 * NPC, f: |a| {
+        // decomposing any instant gives valid fields that rebuild the identical epoch
+        let e = Epoch::from_duration(a[0].dur(), a[1].ts());
+        let (y, mo, d, h, mi, s, ns) = gregorian_fields(e);
+        let valid = strict_valid(y as i128, mo as i128, d as i128, h as i128, mi as i128, s as i128, ns as i128) && s < 60;
+        let back = Epoch::maybe_from_gregorian(y, mo, d, h, mi, s, ns, a[1].ts());
+        let same = match back { Ok(b) => b.duration.to_parts() == e.duration.to_parts() && b.time_scale == e.time_scale, Err(_) => false };
+        (if valid && same { "ok".to_string() } else { format!("fields {:?} valid={} rebuilds_identical={}", (y, mo, d, h, mi, s, ns), valid, same) }, "ok".to_string())
+    }},
+    Op { name: "epoch_year_accessors", sig: &[Ty::I32, Ty::U8, Ty::Bool, Ty::Ts], pre: |a| a[0].int().abs() <= 30_000, f: |a| {
+        // the accessors agree with the fields in the epoch's OWN scale, in particular within a minute of a new year
+        let y = a[0].int();
+        let s = a[1].int() % 60;
+        let e = if a[2].boolean() { Epoch::maybe_from_gregorian(y as i32, 12, 31, 23, 59, s as u8, 999_999_999, a[3].ts()) } else { Epoch::maybe_from_gregorian(y as i32, 1, 1, 0, 0, s as u8, 1, a[3].ts()) }.unwrap();
+        let in_year = if a[2].boolean() { (day_index(y, 12, 31) - day_index(y, 1, 1)) * DAY_NS + (23 * 3600 + 59 * 60 + s) * 1_000_000_000 + 999_999_999 } else { s * 1_000_000_000 + 1 };
+        (format!("{} {:?} {}", e.year(), e.month_name(), show_d(e.duration_in_year())),
+         format!("{} {} {}", y, if a[2].boolean() { "December" } else { "January" }, show_total(in_year)))
+    }},
+    Op { name: "gregorian_roundtrip_dense", sig: &[Ty::I32, Ty::U8, Ty::U8, Ty::U8, Ty::U8, Ty::U8, Ty::U32, Ty::Ts], pre: |a| a[0].int().abs() <= 30_000, f: |a| {
+        // same statement as gregorian_roundtrip, with the raw arguments folded into valid fields so that every input counts
+        let y = a[0].int();
+        let mo = 1 + a[1].int() % 12;
+        let d = 1 + a[2].int() % month_len(y, mo);
+        let (h, mi, s, ns) = (a[3].int() % 24, a[4].int() % 60, a[5].int() % 60, a[6].int() % 1_000_000_000);
+        let e = Epoch::maybe_from_gregorian(y as i32, mo as u8, d as u8, h as u8, mi as u8, s as u8, ns as u32, a[7].ts()).unwrap();
+        let got = gregorian_fields(e);
+        let exp_ns = day_index(y, mo, d) * DAY_NS + h * 3_600_000_000_000 + mi * 60_000_000_000 + s * 1_000_000_000 + ns - greg_zero(a[7].ts());
+        (format!("{:?} {}", got, show_d(e.duration)), format!("{:?} {}", (y as i32, mo as u8, d as u8, h as u8, mi as u8, s as u8, ns as u32), show_total(exp_ns)))
+    }},
+    // ---------------------------------------------------------------- secondary entry points (constructors from a Duration, small accessors)
+    Op { name: "epoch_duration_ctors", sig: &[Ty::Dur], pre: always, f: |a| {
+        // every from_<scale>_duration constructor stores exactly the given duration in exactly that scale
+        let d = a[0].dur();
+        let (c, n) = d.to_parts();
+        let all = [Epoch::from_tai_duration(d), Epoch::from_tt_duration(d), Epoch::from_gpst_duration(d), Epoch::from_qzsst_duration(d), Epoch::from_gst_duration(d),
+                   Epoch::from_bdt_duration(d), Epoch::from_utc_duration(d), Epoch::from_tai_parts(c, n)];
+        let got: Vec<String> = all.iter().map(|e| format!("{} {:?}", show_d(e.duration), e.time_scale)).collect();
+        let exp: Vec<String> = ["TAI", "TT", "GPST", "QZSST", "GST", "BDT", "UTC", "TAI"].iter().map(|t| format!("{} {}", show_total(a[0].total()), t)).collect();
+        (got.join(" | "), exp.join(" | "))
+    }},
+    Op { name: "duration_small_accessors", sig: &[Ty::Dur, Ty::Unit, Ty::I8, Ty::I32, Ty::I32], pre: always, f: |a| {
+        // subdivision(unit) is the decomposition's component times the unit; from_tz_offset(sign, h, m) is +/-(h hours + m minutes)
+        let d = a[0].dur();
+        let m = a[0].total().abs();
+        let u = a[1].unit();
+        let comp = |un: i128, modulo: i128| if modulo == 0 { m / un } else { (m / un) % modulo };
+        let exp_sub = match u {
+            Unit::Nanosecond => Some(comp(1, 1000)), Unit::Microsecond => Some(comp(1_000, 1000) * 1_000), Unit::Millisecond => Some(comp(1_000_000, 1000) * 1_000_000),
+            Unit::Second => Some(comp(1_000_000_000, 60) * 1_000_000_000), Unit::Minute => Some(comp(60_000_000_000, 60) * 60_000_000_000),
+            Unit::Hour => Some(comp(3_600_000_000_000, 24) * 3_600_000_000_000), Unit::Day => Some(comp(DAY_NS, 0) * DAY_NS), _ => None,
+        };
+        let (sg, h, mi) = (a[2].int(), a[3].int(), a[4].int());
+        let tz = h * 3_600_000_000_000 + mi * 60_000_000_000;
+        let tz = if sg < 0 { -tz } else { tz };
+        (format!("{} {}", match d.subdivision(u) { Some(x) => show_d(x), None => "None".to_string() }, show_d(Duration::from_tz_offset(sg as i8, h as i64, mi as i64))),
+         format!("{} {}", match exp_sub { Some(x) => show_total(x), None => "None".to_string() }, show_total(clamp(tz))))
+    }},
+    Op { name: "epoch_small_accessors", sig: &[Ty::Dur, Ty::UTs], pre: |a| a[0].total().abs() < 95 * NPC && conv_ok(a[0].total(), a[1].ts(), TimeScale::TAI), f: |a| {
+        // to_gregorian_tai gives the civil fields of the TAI count; month_name is the month of the date in the epoch's own scale
+        let e = Epoch::from_duration(a[0].dur(), a[1].ts());
+        let tai = a[0].total() + scale_zero(a[1].ts()).unwrap();
+        let fields = |t: i128| { let day = t.div_euclid(DAY_NS); let r = t.rem_euclid(DAY_NS); let (y, mo, d) = civil_of_day(day);
+            (y as i32, mo as u8, d as u8, (r / 3_600_000_000_000) as u8, (r / 60_000_000_000 % 60) as u8, (r / 1_000_000_000 % 60) as u8, (r % 1_000_000_000) as u32) };
+        let own = fields(a[0].total() + greg_zero(a[1].ts()));
+        const MONTHS: [&str; 12] = ["January", "February", "March", "April", "May", "June", "July", "August", "September", "October", "November", "December"];
+        (format!("{:?} {:?}", e.to_gregorian_tai(), e.month_name()), format!("{:?} {}", fields(tai), MONTHS[(own.1 - 1) as usize]))
     }},
     Op { name: "gregorian_build", sig: &[Ty::I32, Ty::U8, Ty::U8, Ty::U8, Ty::U8, Ty::U8, Ty::U32, Ty::Ts], pre: |a| {
         a[0].int().abs() <= 100_000 && strict_valid(a[0].int(), a[1].int(), a[2].int(), a[3].int(), a[4].int(), a[5].int(), a[6].int()) && a[5].int() < 60
